@@ -300,7 +300,7 @@ Lemma save_block_spec s b s1 :
 Proof.
   intros Hs Hst Hor Hb. pose proof (save_block_orphans _ _ _ Hs) as Ho.
   unfold Model.save_block in Hs. destruct (has_id (stored s) (bparent b)) eqn:Hp; [|discriminate].
-  destruct (valid b) eqn:Hv; [|discriminate]. inversion Hs as [Hs1]. clear Hs.
+  destruct (valid b) eqn:Hv; [|discriminate]. injection Hs as Hs1.
   set (st := if has_id (stored s) (bid b) then stored s else stored s ++ [b]) in *.
   assert (Hst1 : stored s1 = st) by (rewrite <- Hs1; rewrite om_delete_stored; reflexivity).
   assert (Hinb : In b st).
@@ -405,12 +405,14 @@ Record Inv (D : list blk) (s : state) : Prop := {
 
 Lemma Inv_init : Inv [] (init g).
 Proof.
-  constructor; cbn; auto.
-  - intros x [E|[]]. auto.
-  - intros x [].
-  - intros _ x [].
-  - intros o [[] _].
-  - intros o [].
+  constructor.
+  - cbn. left. reflexivity.
+  - intros x Hx. cbn in Hx. destruct Hx as [E|[]]. left. symmetry. exact E.
+  - intros x Hx. cbn in Hx. destruct Hx.
+  - intros _ x Hx. destruct Hx.
+  - intros o Ho. destruct Ho as [Ho _]. cbn in Ho. destruct Ho.
+  - intros o Ho. cbn in Ho. destruct Ho.
+  - cbn. apply le_n.
 Qed.
 
 Lemma stored_ok_mono D D' s : incl D D' -> stored_ok D s -> stored_ok D' s.
@@ -445,9 +447,9 @@ Proof.
   split; [assumption|]. split.
   { intros x Hx. apply in_app_or in Hx. destruct Hx as [Hx|[Hx|[]]]; auto. }
   split; [apply in_or_app; right; left; reflexivity|]. split.
-  { intros H0. rewrite (He H0) in *. split; [assumption|]. intros x Hx. apply in_or_app. auto. }
+  { intros H0. pose proof (He H0) as Es. rewrite Es in H0. split; [exact H0|]. intros x Hx. rewrite Es. apply in_or_app. auto. }
   split.
-  { intros Hidx o Ho. cbn in *. rewrite lookup_set_key.
+  { intros Hidx o Ho. cbn [orphans prevs] in *. rewrite lookup_set_key.
     apply in_app_or in Ho. destruct Ho as [Ho|[Ho|[]]].
     - destruct (Hd Hidx o Ho) as [l [Hl Hin]].
       destruct (N.eqb (bparent b) (bparent o)) eqn:E.
@@ -534,8 +536,10 @@ Proof.
   assert (Hev : evicted s2 = evicted s).
   { rewrite (ext_evicted _ _ Hext2). apply (ext_evicted _ _ Hext1). }
   split; [|rewrite Hev; auto].
-  constructor; auto.
+  constructor.
   - apply (ext_stored _ _ Hext2). apply (ext_stored _ _ Hext1). assumption.
+  - exact Hst2.
+  - exact Hor2.
   - intros H0 x Hx Hv. rewrite Hev in H0.
     assert (Hx1 : In x (stored s1) \/ In x (orphans s1)).
     { apply in_app_or in Hx. destruct Hx as [Hx|[Hx|[]]]; [|subst; auto].
@@ -546,6 +550,7 @@ Proof.
     + left. apply (ext_stored _ _ Hext2). assumption.
     + destruct (ext_kept _ _ Hext2 x H); auto.
   - intros o Ho. apply (Hv2 o Ho).
+  - exact Hidx2.
   - rewrite Ho1 in L2. pose proof (drop_id_length (orphans s) (bid b)). lia.
 Qed.
 
@@ -631,14 +636,27 @@ Lemma order_independent_statement g ds1 ds2 s1 os1 s2 os2 :
 Proof.
   intros Hperm Hc H1 H2 E1 E2 b.
   assert (Hc2 : hash_consistent (g :: ds2)).
-  { intros x y Hx Hy. apply Hc; (destruct Hx as [Hx|Hx] || destruct Hy as [Hy|Hy]);
-      try (left; assumption); right; eapply Permutation_in; try eassumption; apply Permutation_sym; assumption. }
+  { assert (Hin : forall x, In x (g :: ds2) -> In x (g :: ds1)).
+    { intros x [Hx|Hx]; [left; assumption|]. right.
+      eapply Permutation_in; [apply Permutation_sym; eassumption | assumption]. }
+    intros x y Hx Hy. apply Hc; auto. }
   destruct (closure_statement g ds1 s1 os1 Hc H1 E1) as [C1 _].
   destruct (closure_statement g ds2 s2 os2 Hc2 H2 E2) as [C2 _].
   rewrite C1, C2.
   assert (I12 : incl ds1 ds2) by (intros x Hx; eapply Permutation_in; eassumption).
   assert (I21 : incl ds2 ds1) by (intros x Hx; eapply Permutation_in; [apply Permutation_sym|]; eassumption).
   split; intros [E|C]; auto; right; eapply connected_incl; eassumption.
+Qed.
+
+Lemma invariant_step_statement g (U : blk -> Prop) :
+  U g -> (forall a b, U a -> U b -> bid a = bid b -> a = b) ->
+  forall D s b s' o,
+    (forall x, In x (D ++ [b]) -> U x) ->
+    Inv valid g D s -> process_block valid best_height cap s b = Some (s', o) ->
+    Inv valid g (D ++ [b]) s'.
+Proof.
+  intros Ug Uc D s b s' o HU HI Hp.
+  exact (proj1 (process_block_inv valid best_height cap g U Ug Uc D s b s' o HU HI Hp)).
 Qed.
 
 Lemma below_capacity_statement g ds s os :
@@ -648,3 +666,50 @@ Lemma below_capacity_statement g ds s os :
 Proof. intros Hc Hr. apply (reachable_inv g ds s os Hc Hr). Qed.
 
 End Statement.
+
+(* ---- the hypotheses are satisfiable by a non-trivial history --------------------- *)
+
+Definition blk_eqb (a b : blk) : bool :=
+  N.eqb (bid a) (bid b) && N.eqb (bparent a) (bparent b) && N.eqb (bheight a) (bheight b) && N.eqb (btag a) (btag b).
+
+Lemma blk_eqb_eq a b : blk_eqb a b = true -> a = b.
+Proof.
+  unfold blk_eqb. intros H. repeat (apply andb_true_iff in H; destruct H as [H ?]).
+  destruct a, b; cbn in *. repeat match goal with E : N.eqb _ _ = true |- _ => apply N.eqb_eq in E end.
+  subst. reflexivity.
+Qed.
+
+Definition consistentb (l : list blk) : bool :=
+  forallb (fun a => forallb (fun b => negb (N.eqb (bid a) (bid b)) || blk_eqb a b) l) l.
+
+Lemma consistentb_sound l : consistentb l = true -> hash_consistent l.
+Proof.
+  unfold consistentb. intros H a b Ha Hb E. rewrite forallb_forall in H.
+  specialize (H a Ha). rewrite forallb_forall in H. specialize (H b Hb).
+  apply orb_true_iff in H. destruct H as [H|H].
+  - apply negb_true_iff in H. apply N.eqb_neq in H. contradiction.
+  - apply blk_eqb_eq. exact H.
+Qed.
+
+(* genesis <- P <- {A, B, C}, delivered A, B, C, P: the historical crash *)
+Definition ex_g := mkBlk 0 99 0 0.
+Definition ex_P := mkBlk 1 0 1 0.
+Definition ex_A := mkBlk 2 1 2 0.
+Definition ex_B := mkBlk 3 1 2 0.
+Definition ex_C := mkBlk 4 1 2 0.
+Definition ex_valid (b : blk) : bool := N.eqb (btag b) 0.
+
+Example ex_consistent : hash_consistent [ex_g; ex_A; ex_B; ex_C; ex_P].
+Proof. apply consistentb_sound. vm_compute. reflexivity. Qed.
+
+Example ex_siblings_then_parent :
+  exists s, run ex_valid (fun _ => 0%N) 256 (init ex_g) [ex_A; ex_B; ex_C; ex_P]
+            = Some (s, [(true, 0%N); (true, 0%N); (true, 0%N); (false, 0%N)]) /\
+            evicted s = 0%N /\ stored s = [ex_g; ex_P; ex_A; ex_B; ex_C] /\ orphans s = [] /\ prevs s = [].
+Proof. eexists. vm_compute. repeat split. Qed.
+
+Example ex_connected : connected ex_valid ex_g [ex_A; ex_B; ex_C; ex_P] ex_C.
+Proof.
+  apply conn_step with (p := ex_P); [cbn; tauto | reflexivity | | reflexivity].
+  apply conn_root; [cbn; tauto | reflexivity | reflexivity].
+Qed.
